@@ -185,6 +185,18 @@ def r3(ctx) -> None:
                    "the ambiguity test must dominate the merge of a dataset's aligned points into the accumulated axis")
             inner = v.args[0] if v.args else None
             ok = isinstance(inner, ast.Call) and norm(inner.func) in ("np.concatenate", "numpy.concatenate") and acc_name in lib.names_in(inner)
+            # what is merged in: the *aligned* points of this dataset (the comprehension of align_index results)
+            if ok:
+                lst = inner.args[0] if inner.args else None
+                elts = lst.elts if isinstance(lst, (ast.List, ast.Tuple)) else []
+                others = [e for e in elts if not (isinstance(e, ast.Name) and e.id == acc_name)]
+                aligned_ok = len(elts) == 2 and len(others) == 1 and isinstance(others[0], ast.Name) and any(
+                    dd.kind == "assign" and isinstance(dd.value, ast.ListComp) and "align_index" in norm(dd.value)
+                    for dd in fl.reaching(others[0].id, d.stmt)) and all(
+                    dd.kind == "assign" and isinstance(dd.value, ast.ListComp) for dd in fl.reaching(others[0].id, d.stmt))
+                ctx.ob("C09-R3", "create_aligned_global_axes/merges-aligned-points", aligned_ok, fi, d.stmt,
+                       "the accumulated axis is extended by the dataset's *aligned* points; merging the original axis leaves the "
+                       "old coordinate of every moved point behind as a ghost target for later datasets")
             ctx.ob("C09-R3", "create_aligned_global_axes/merge-sorted-unique", ok, fi, d.stmt,
                    "the accumulated axis is np.unique(concatenate([old axis, aligned points])): strictly increasing, no duplicates")
         else:
@@ -194,6 +206,13 @@ def r3(ctx) -> None:
                 return pol and tt in (f"{acc_name} is None",) or (not pol and tt == f"{acc_name} is not None")
             ctx.ob("C09-R3", "create_aligned_global_axes/first-dataset-defines-axis", lib.guarded_by(fl, d.stmt, none_test) is not None, fi, d.stmt,
                    "only the first dataset initialises the accumulated axis")
+    sts = [(t, s_) for t, s_ in lib.stores(fi) if isinstance(t, ast.Subscript) and norm(t.value) == "aligned_global_axes"]
+    for t, s_ in sts:
+        v = s_.value
+        okv = isinstance(v, ast.Name) and any(dd.kind == "assign" and isinstance(dd.value, ast.ListComp) and "align_index" in norm(dd.value)
+                                              for dd in fl.reaching(v.id, s_))
+        ctx.ob("C09-R3", "create_aligned_global_axes/stores-aligned-axis", okv, fi, s_,
+               "the axis recorded for a dataset is its aligned axis (own axis for the first dataset)")
     ctx.ob("C09-R3", "create_aligned_global_axes/merge-present", n_checked >= 1, fi, fi.node, "later datasets are merged into the accumulated axis",
            construct="aligned_axis_values = np.unique(np.concatenate([...]))")
     # every point of every later dataset goes through align_index with the scheme's tolerance and method
@@ -220,7 +239,7 @@ def _iter_of_comp(fi, call_name: str):
     return out
 
 
-def r4(ctx) -> None:
+def r4(ctx, rule: str = "C09-R4") -> None:
     repo = ctx.repo
     stackers = [
         ("align_data", "aligned_global_axes"), ("align_dataset_indices", "aligned_global_axes"), ("align_groups", "aligned_global_axes"),
@@ -229,52 +248,52 @@ def r4(ctx) -> None:
         fi = ctx.fn(DAT, f"DataProviderLinked.{name}")
         comps = [c for c in lib.nodes(fi, (ast.ListComp, ast.GeneratorExp)) if any(
             isinstance(x, ast.Call) and norm(x.func) == "xr.DataArray" for x in ast.walk(c.elt))]
-        ctx.sites("C09-R4", f"stacking comprehension in {name}", len(comps), 1)
+        ctx.sites(rule, f"stacking comprehension in {name}", len(comps), 1)
         for comp in comps:
             g = comp.generators[0]
             it = norm(g.iter)
             ok = it in (f"{p}.items()", f"{p}.values()") and not g.ifs and len(comp.generators) == 1
-            ctx.ob("C09-R4", f"{name}/stack-order", ok, fi, lib.stmt_of(comp),
+            ctx.ob(rule, f"{name}/stack-order", ok, fi, lib.stmt_of(comp),
                    f"datasets are stacked in the iteration order of `{p}` (no sorting, filtering or reversing) - the order "
                    "group_definitions and the result slicer rely on", construct=f"for {norm(g.target)} in {it}" + (" if ..." if g.ifs else ""))
             # inside xr.concat directly
             par = comp._parent
             ok2 = isinstance(par, ast.Call) and norm(par.func) == "xr.concat" and par.args and par.args[0] is comp
-            ctx.ob("C09-R4", f"{name}/concat-of-comprehension", ok2, fi, lib.stmt_of(comp),
+            ctx.ob(rule, f"{name}/concat-of-comprehension", ok2, fi, lib.stmt_of(comp),
                    "the comprehension is handed to xr.concat as is")
     cg = ctx.fn(DAT, "DataProviderLinked.create_aligned_global_axes")
     loops = [n for n in lib.nodes(cg, ast.For) if norm(n.iter) == "self._global_axes.items()"]
-    ctx.ob("C09-R4", "create_aligned_global_axes/dataset-order", len(loops) == 1, cg, loops[0] if loops else cg.node,
+    ctx.ob(rule, "create_aligned_global_axes/dataset-order", len(loops) == 1, cg, loops[0] if loops else cg.node,
            "the aligned axes mapping is built in the order of the group's datasets", construct="for label, global_axis in self._global_axes.items()")
     init = ctx.fn(DAT, "DataProvider.__init__")
     loops = [n for n in lib.nodes(init, ast.For) if norm(n.iter) == "dataset_group.dataset_models.items()"]
-    ctx.ob("C09-R4", "DataProvider.__init__/dataset-order", len(loops) == 1, init, loops[0] if loops else init.node,
+    ctx.ob(rule, "DataProvider.__init__/dataset-order", len(loops) == 1, init, loops[0] if loops else init.node,
            "axes are registered in the order of dataset_group.dataset_models", construct="for label, dataset_model in dataset_group.dataset_models.items()")
     # group definitions: labels of one aligned index in stacking order
     ag = ctx.fn(DAT, "DataProviderLinked.align_groups")
     txt = norm(ag.node)
-    ctx.ob("C09-R4", "align_groups/definition-in-stack-order", "aligned_groups.isel({'global': i}).data" in txt and "filter(" in txt, ag, ag.node,
+    ctx.ob(rule, "align_groups/definition-in-stack-order", "aligned_groups.isel({'global': i}).data" in txt and "filter(" in txt, ag, ag.node,
            "a group definition lists the datasets present at an aligned index in stacking order (absent ones filtered out)",
            construct="list(filter(lambda label: label != '', aligned_groups.isel({'global': i}).data))")
     # consumers use group_definitions order
     cam = ctx.fn(MAT, "MatrixProviderLinked.calculate_aligned_matrices")
     zips = [c for c in lib.calls(cam) if norm(c.func) == "zip"]
     ok = any(len(z.args) == 2 and "group_definitions[group_label]" in norm(z.args[0]) and "get_aligned_dataset_indices(" in norm(z.args[1]) for z in zips)
-    ctx.ob("C09-R4", "calculate_aligned_matrices/labels-with-indices", ok, cam, zips[0] if zips else cam.node,
+    ctx.ob(rule, "calculate_aligned_matrices/labels-with-indices", ok, cam, zips[0] if zips else cam.node,
            "dataset labels of the group definition are paired with the aligned dataset indices of the same aligned index",
            construct=lib.short(zips[0], 120) if zips else "def")
     scs = [n for n in lib.nodes(cam, ast.ListComp) if "scale" in norm(n.elt)]
     ok = any(norm(n.generators[0].iter).endswith("group_definitions[group_label]") and not n.generators[0].ifs for n in scs)
-    ctx.ob("C09-R4", "calculate_aligned_matrices/scales-in-same-order", ok, cam, scs[0] if scs else cam.node,
+    ctx.ob(rule, "calculate_aligned_matrices/scales-in-same-order", ok, cam, scs[0] if scs else cam.node,
            "the dataset scales are listed in the same group definition order as the matrices", construct=lib.short(scs[0], 120) if scs else "def")
     aw = ctx.fn(DAT, "DataProviderLinked.align_weights")
     loops = [n for n in lib.nodes(aw, ast.For) if norm(n.iter) == "group_dataset_labels"]
     okw = bool(loops) and "self._group_definitions[group_label]" in norm(aw.node)
-    ctx.ob("C09-R4", "align_weights/same-order", okw, aw, loops[0] if loops else aw.node,
+    ctx.ob(rule, "align_weights/same-order", okw, aw, loops[0] if loops else aw.node,
            "weights are concatenated in group definition order, with ones for datasets without weight", construct="for label in group_dataset_labels")
     ones = [c for c in lib.calls(aw) if norm(c.func) == "np.ones"]
     okones = bool(ones) and all("get_model_axis(label).size" in norm(lib.stmt_of(c)) or norm(c.args[0]) == "size" for c in ones)
-    ctx.ob("C09-R4", "align_weights/unweighted-datasets-get-ones", okones, aw, ones[0] if ones else aw.node,
+    ctx.ob(rule, "align_weights/unweighted-datasets-get-ones", okones, aw, ones[0] if ones else aw.node,
            "a dataset without weight contributes ones of its own model-axis length", construct=lib.short(lib.stmt_of(ones[0])) if ones else "def")
     gr = ctx.fn(EST, "EstimationProviderLinked.get_result")
     fl = lib.flow(gr, repo)
@@ -284,21 +303,21 @@ def r4(ctx) -> None:
         t = norm(d.value)
         if t.startswith("sum(") and "get_model_axis(label).size" in t and "group_datasets[:dataset_index]" in t:
             ok = True
-    ctx.ob("C09-R4", "get_result/residual-slice-start", ok, gr, starts[0].stmt if starts else gr.node,
+    ctx.ob(rule, "get_result/residual-slice-start", ok, gr, starts[0].stmt if starts else gr.node,
            "a dataset's residual block starts after the model axes of the datasets that precede it in the group definition")
     ends = [d for d in fl.defs_of("end") if d.kind == "assign"]
     ok = any(norm(d.value).replace(" ", "") == "start+self._data_provider.get_model_axis(dataset_label).size" for d in ends)
-    ctx.ob("C09-R4", "get_result/residual-slice-end", ok, gr, ends[0].stmt if ends else gr.node,
+    ctx.ob(rule, "get_result/residual-slice-end", ok, gr, ends[0].stmt if ends else gr.node,
            "and has the length of the dataset's own model axis")
     di = [d for d in fl.defs_of("dataset_index") if d.kind == "assign"]
     ok = any(norm(d.value) == "group_datasets.index(dataset_label)" for d in di)
-    ctx.ob("C09-R4", "get_result/position-in-group", ok, gr, di[0].stmt if di else gr.node,
+    ctx.ob(rule, "get_result/position-in-group", ok, gr, di[0].stmt if di else gr.node,
            "the dataset's position is looked up in the group definition of that aligned index")
     # the global coordinate reported back is the dataset's own axis
     coords = [s for t, s in lib.stores(gr) if "coords[global_dimension]" in norm(t)]
     ok = any(norm(s.value) == "global_axis" for s in coords) and any(
         d.kind == "assign" and norm(d.value) == "self._data_provider.get_global_axis(dataset_label)" for d in fl.defs_of("global_axis"))
-    ctx.ob("C09-R4", "get_result/original-coordinates", ok, gr, coords[0] if coords else gr.node,
+    ctx.ob(rule, "get_result/original-coordinates", ok, gr, coords[0] if coords else gr.node,
            "results are reported on the dataset's original global axis, not on the aligned one")
 
 
